@@ -16,7 +16,8 @@ LEVEL = "fault_enumeration"
 RULE = (
     "Hypothesis draws valid delimited streams (pyjelly-written and reference-encoder-written, up to ~20 frames, incl. "
     "leading / interior empty frames, some frames > 127 bytes so that length prefixes are multi-byte); for each stream "
-    "EVERY cut offset k in [0, len] is enumerated x source {BytesIO, non-seekable short-reading raw} x {flat, grouped} x "
+    "EVERY cut offset k in [0, len] is enumerated x source {BytesIO, non-seekable short-reading raw ending in EOF, the same "
+    "raw source and a BufferedReader over it ending in an exception (connection reset)} x {flat, grouped} x "
     "generic (and rdflib flat for RDF 1.1 content). Items are collected until StopIteration or any Exception. Oracle: "
     "(i) the items are a prefix of the full parse (never a foreign or reordered item; for grouped: sink j == sink j of the "
     "full parse), (ii) at least the statements of all frames lying entirely inside data[:k] were yielded. "
@@ -97,8 +98,16 @@ def body(case, acc):
             acc.case({"stream": sh, "k": k, "of": len(data)}, bool(labels), labels)
         cut = data[:k]
         for integ in full:
-            for srckind in ("bytesio", "raw"):
-                source = io.BytesIO(cut) if srckind == "bytesio" else iosim.DribbleRaw(cut, case["schedule"])
+            for srckind in ("bytesio", "raw", "raw_reset", "buffered_reset"):
+                if srckind == "bytesio":
+                    source = io.BytesIO(cut)
+                elif srckind == "raw":
+                    source = iosim.DribbleRaw(cut, case["schedule"])
+                else:
+                    # a dropped connection that surfaces as an exception from the source instead of EOF
+                    source = iosim.DribbleRaw(data, case["schedule"], limit=k, stall=True)
+                    if srckind == "buffered_reset":
+                        source = io.BufferedReader(source)
                 items, exc = pyj.parse_flat_partial(None, integ, source=source)
                 items = scen.norm_any(items)
                 if items != full[integ][:len(items)]:
@@ -141,5 +150,5 @@ def run_shard(spec) -> Acc:
 
 
 def plan(tier, seed):
-    n = 16 if tier == "quick" else 400
+    n = 10 if tier == "quick" else 300
     return [{"shard": i, "n": n} for i in range(16)]
